@@ -6,6 +6,7 @@
 import Spydr.Edif.LemmasLex
 import Spydr.Edif.LemmasBits
 import Spydr.Edif.LemmasPins
+import Spydr.Edif.LemmasNets
 namespace Spydr.Edif.C05
 open Spydr.Edif
 
@@ -19,7 +20,7 @@ example : (match readS (lexE "(edif n (net (rename a_3_ \"a[3]\") (joined)))) tr
     | some (e, rest) => e.beq (.list [.atom "edif".toList, .atom "n".toList,
         .list [.atom "net".toList, .list [.atom "rename".toList, .atom "a_3_".toList, .atom "\"a[3]\"".toList],
           .list [.atom "joined".toList]]]) && rest == [Tok.rp, Tok.atom "trailing".toList]
-    | none => false) = true := by decide
+    | none => false) = true := by decide +kernel
 
 /-- **multibit_merge** — C05's central sentence.  Any cable (base index, wires); any sub-list of
     its bit nets; any order of them: folding multibit_add_cable's merge step yields ONE bus in
@@ -112,5 +113,68 @@ theorem resolve_ci_sound (sibs : List Data) (spelling : Str) (i : Nat) (h : find
 
 example : findIdent [[(kIDENT, .str "Work".toList)], [(kIDENT, .str "LIB2".toList)]] "lib2".toList = some 1 ∧
     findIdent [[(kIDENT, .str "Work".toList)]] "other".toList = none := by decide
+
+/-!
+### edif_reader_spec
+
+Full statement (C05, stretch goal of DESIGN §6), kept here for reference:
+
+    theorem edif_reader_spec (d : AbstractDesign) (hd : d.WF) :
+        ofSExp (renderAbstract d) = .ok (denote d)
+
+for the abstract designs of the harness generator (random hierarchy, several libraries, array
+ports, instances referenced in any letter case, renames, typed properties, comments, nets as
+scalar nets / bit nets in any order with missing bits).
+
+Proved: the NET part of it at cell level, on the reader's own `multibit_add_cable`
+(`nets_any_order` below), the reference part construct by construct (`member_index`,
+`member_index_instance`, `resolve_ci_*`), the token part (`readS_flatten`, C03.`lex_layout`).
+Missing for the full statement: a Lean `renderAbstract`/`denote` for the generator's designs and
+the assembly of ports, instances (with case-varied cellRef/libraryRef), properties, comments and
+status blocks across cells and libraries.  That assembly is proved for the WRITER's texts in
+C03.`edif_roundtrip_partial`; for arbitrary abstract designs it is covered by the correspondence
+check (model vs implementation on every generated text) and by P evaluated on the implementation.
+-/
+
+/-- **edif_reader_spec_partial / nets_any_order** — for every well-formed list of nets of a cell
+    (scalar nets and bit nets `name[i]`/`id_i_` of any number of buses, interleaved in any order,
+    any bits missing) the reader's net loop (`parse_net` results fed to `multibit_add_cable`) succeeds
+    and every bus whose bit indices are pairwise distinct ends up as ONE cable with bit `k` at
+    position `k − lower` carrying exactly the pins the text gives for index `k`, gaps empty. -/
+theorem edif_reader_spec_partial (items : List NetItem) (hwf : NetsWF items) :
+    ∃ cs, items.foldlM (fun cs it => multibitAdd cs it.data it.pins) [] = .ok cs ∧
+      ∀ it ∈ items, ∀ i, it.idx = some i → ((bitsOf it.name items).map (·.1)).Nodup →
+        ∃ c, busOf it.name cs = some c ∧ c.ws ≠ [] ∧
+          (∀ k, c.bit k = pinsAt (bitsOf it.name items) k) ∧
+          (∀ j, j < c.ws.length → c.ws.getD j [] = pinsAt (bitsOf it.name items) (c.lo + j)) ∧
+          c.lo ∈ (bitsOf it.name items).map (·.1) ∧
+          (∀ x ∈ (bitsOf it.name items).map (·.1), c.lo ≤ x ∧ x < c.lo + c.ws.length) ∧
+          (∃ x ∈ (bitsOf it.name items).map (·.1), c.lo + c.ws.length = x + 1) :=
+  nets_any_order items hwf
+
+/-- non-vacuity: bus `a` arrives as bits 2, 0, 3 (bit 1 missing), interleaved with a scalar net `clk`
+    and a bit of another bus; the reader's loop yields cable `a` based at 0 with four wires -/
+def exItems : List NetItem :=
+  [⟨"a".toList, "a".toList, some 2, [.port 0 2]⟩, ⟨"clk".toList, "clk".toList, none, [.port 1 0]⟩,
+   ⟨"a".toList, "a".toList, some 0, [.port 0 0]⟩, ⟨"&_b".toList, "_b".toList, some 5, []⟩,
+   ⟨"a".toList, "a".toList, some 3, [.port 0 3]⟩]
+
+example : (match exItems.foldlM (fun cs it => multibitAdd cs it.data it.pins) [] with
+    | .ok cs => (busOf "a".toList cs).map (fun c => (c.lo, c.ws)) ==
+        some (0, [[CPin.port 0 0], [], [CPin.port 0 2], [CPin.port 0 3]]) && cs.length == 3
+    | .error _ => false) = true := by decide +kernel
+
+example : NetsWF exItems := by
+  refine ⟨?_, ?_, ?_, ?_⟩
+  · intro it hit
+    simp only [exItems, List.mem_cons, List.not_mem_nil, or_false] at hit
+    rcases hit with rfl | rfl | rfl | rfl | rfl <;> refine ⟨by decide, by decide, by decide +kernel⟩
+  · intro a ha b hb
+    simp only [exItems, List.mem_cons, List.not_mem_nil, or_false] at ha hb
+    rcases ha with rfl | rfl | rfl | rfl | rfl <;> rcases hb with rfl | rfl | rfl | rfl | rfl <;> decide
+  · intro a ha b hb
+    simp only [exItems, List.mem_cons, List.not_mem_nil, or_false] at ha hb
+    rcases ha with rfl | rfl | rfl | rfl | rfl <;> rcases hb with rfl | rfl | rfl | rfl | rfl <;> decide
+  · decide
 
 end Spydr.Edif.C05
